@@ -362,3 +362,43 @@ def corpus(tier='quick'):
             MibFile([module_full('GGG-MIB', 77)], eol='\r\n', name='full-crlf'),
         ]
     return files
+
+
+def text_of(lines, eol='\n'):
+    return eol.join(t for k, t in lines) + eol
+
+
+def module_full_alt(name='FULL-MIB', arc=4242):
+    """Same module name and many of the same symbol names as module_full(), but what is a table, row or column
+    there is a plain scalar here (and the other way round for one symbol): exposes per-module scratch state
+    (rows, columns, seen symbols, compliance/identity OIDs) that survives from one module to the next."""
+    n = name.split('-')[0].lower()
+    ls = [L('head', '%s DEFINITIONS ::= BEGIN' % name),
+          L('decl', 'IMPORTS OBJECT-TYPE, Integer32, Unsigned32, enterprises FROM SNMPv2-SMI;'),
+          L('decl', '%sMIB OBJECT IDENTIFIER ::= { enterprises %d }' % (n, arc)),
+          L('decl', '%sObjects OBJECT IDENTIFIER ::= { %sMIB 1 }' % (n, n))]
+    for i, sym_ in enumerate(['Table', 'Entry', 'Index', 'Label', 'Status', 'Scalar']):
+        ls += [L('decl', '%s%s OBJECT-TYPE' % (n, sym_)),
+               L('code', '    SYNTAX Integer32'),
+               L('code', '    MAX-ACCESS read-only'),
+               L('code', '    STATUS current'),
+               L('code', '    DESCRIPTION "plain scalar %d"' % i),
+               L('code', '    ::= { %sObjects %d }' % (n, 20 + i))]
+    # what was a scalar ("Big") is a table here
+    ls += [L('decl', '%sBig OBJECT-TYPE' % n), L('code', '    SYNTAX SEQUENCE OF %sBigEntry' % n.capitalize()), L('code', '    MAX-ACCESS not-accessible'),
+           L('code', '    STATUS current'), L('code', '    DESCRIPTION "now a table"'), L('code', '    ::= { %sObjects 40 }' % n),
+           L('decl', '%sBigEntry OBJECT-TYPE' % n), L('code', '    SYNTAX %sBigEntry' % n.capitalize()), L('code', '    MAX-ACCESS not-accessible'),
+           L('code', '    STATUS current'), L('code', '    DESCRIPTION "row"'), L('code', '    INDEX { %sBigIdx }' % n), L('code', '    ::= { %sBig 1 }' % n),
+           L('decl', '%sBigEntry ::= SEQUENCE { %sBigIdx Unsigned32 }' % (n.capitalize(), n)),
+           L('decl', '%sBigIdx OBJECT-TYPE' % n), L('code', '    SYNTAX Unsigned32'), L('code', '    MAX-ACCESS not-accessible'),
+           L('code', '    STATUS current'), L('code', '    DESCRIPTION "idx"'), L('code', '    ::= { %sBigEntry 1 }' % n),
+           L('end', 'END')]
+    return ls
+
+
+CORPUS_MODULES = {
+    'full': lambda: ('FULL-MIB', text_of(module_full('FULL-MIB', 4242))),
+    'fullalt': lambda: ('FULL-MIB', text_of(module_full_alt('FULL-MIB', 4242))),
+    'v1': lambda: ('OLD-MIB', text_of(module_v1('OLD-MIB', 4343))),
+    'small': lambda: ('AAA-MIB', text_of(module_small('AAA-MIB', 11, 2))),
+}
